@@ -218,3 +218,15 @@ CHECKS["C18"] = dict(
     assumptions=["destinations in generated headers are local only (no egress); unresolvable names are answered by the in-process DNS", "address classes absent on the host are skipped and counted"],
     units=[unit("props", ["TCP", "UDP"], "C18", crash_is_violation=True, wedge_is_violation=True)],
 )
+
+CHECKS["C19"] = dict(
+    level="exploration",
+    rule="Generated concurrent workloads built with the Go race detector (GORACE=halt_on_error=1; a report kills the shard and the journalled case becomes the replay file), each with a sequential-consistency oracle: "
+         "(KeyList) 2..16 goroutines authenticating from different client IPs while one goroutine replaces the list 5..100 times with lists that always contain key K and never key L: K never fails, L never succeeds; "
+         "(ReplayCache) 2..16 goroutines presenting the same 20..200 handshakes while another resizes among capacities >= the number of handshakes: exactly one winner each; "
+         "(NAT) 2..24 concurrent UDP clients x 1..20 datagrams through the real PacketHandler with expiries and echoes: every datagram forwarded, every reply relayed, one removal per association; "
+         "(Listeners, SharedDelivery) the concurrent listen/close plans of C13 and the delivery state machine of C12; (Collectors) C17's workers x scrapers workload; (TCPService) C15's concurrent connection mixes. "
+         "Every workload counts as non-trivial; distinct = canonical case JSON.",
+    assumptions=["the race detector only sees interleavings that occur: dynamic, not exhaustive"],
+    units=[unit("props-race", ["KeyList", "ReplayCache", "NAT", "Listeners", "SharedDelivery", "Collectors", "TCPService"], "C19", crash_is_violation=True, wedge_is_violation=True, timeout=(400, 2400))],
+)
